@@ -59,3 +59,83 @@ Theorem C05_literals_refuted :
 Proof. vm_compute. reflexivity. Qed.
 Goal True. idtac "ASSUMPTIONS-OF C05_literals_refuted". Abort.
 Print Assumptions C05_literals_refuted.
+
+(* FIXED-FORM READING.  The continuation loop of the fixed-form reader joins the statement field
+   (columns 7..) of every continuation line (five blanks and any non-blank mark in column 6) to the
+   text so far, losslessly and in order; comment lines between them are queued behind the statement
+   (comments kept) or invisible (comments ignored) and change neither the text nor the recorded end
+   line; the loop stops in front of the first line that is neither, which it leaves in the push-back
+   buffer.  Any number of lines, any text already joined.
+   (_partial: statement fields free of quotes and '!'; literals and in-line comments are tied to the
+   model by the correspondence.) *)
+From FV Require Import ReaderJoin ReaderItem FixedJoin FixedFree.
+Theorem C05_fixed_continuation_joins_statement_fields_partial :
+  forall ign ls fuel acc endl lc fifo tail,
+    Forall (fgood) ls -> tail_ok tail -> List.length ls < fuel ->
+    fix_loop fuel acc None endl (fx ign (map fphys ls ++ tail) [] lc fifo)
+    = (acc ++ ftext ls, fend ls lc endl, after ign tail (lc + List.length ls) (fifo ++ fcoms ign ls lc)).
+Proof. exact fix_join. Qed.
+Goal True. idtac "ASSUMPTIONS-OF C05_fixed_continuation_joins_statement_fields_partial". Abort.
+Print Assumptions C05_fixed_continuation_joins_statement_fields_partial.
+
+(* The item: label field (columns 1-5), column 6, optional construct name, statement field and any
+   number of continuation and comment lines give ONE line item: the joined statement fields, the
+   label, the name, the exact span. *)
+Theorem C05_fixed_statement_is_one_item_partial :
+  forall ign l5 c6 body nm rest ls tail lc fifo,
+    let line := l5 ++ c6 :: body in
+    let field := match nm with Some _ => rest | None => body end in
+    List.length l5 = 5 -> forallb space_or_digit l5 = true ->
+    stripped line -> starts_with ["#"%char] (lstrip line) = false -> is_fix_comment line = false ->
+    extract_construct_name body = (nm, rest) -> plain field -> strip (field ++ ftext ls) <> [] -> is_blank field = false ->
+    Forall fgood ls -> tail_ok tail ->
+    get_source_item (fx ign (line :: map fphys ls ++ tail) [] lc fifo)
+    = (Some (RLine (strip (field ++ ftext ls))
+                   (match strip l5 with [] => None | _ => Some (nat_of_digits (strip l5)) end) nm
+                   (S lc) (fend ls (S lc) (S lc))),
+       after ign tail (S lc + List.length ls) (fifo ++ fcoms ign ls (S lc))).
+Proof. exact fixed_item. Qed.
+Goal True. idtac "ASSUMPTIONS-OF C05_fixed_statement_is_one_item_partial". Abort.
+Print Assumptions C05_fixed_statement_is_one_item_partial.
+
+(* FIXED == FREE.  The same pieces p1 ... pn written as a fixed-form statement (p1 in the statement
+   field of the initial line, each further piece in the statement field of a continuation line) and as
+   a free-form statement ( p1& / &p2& / ... / &pn , any blanks around the ampersands) are delivered
+   as items with the SAME text and the same construct name; the labels are those of the two label
+   syntaxes; both span exactly their n physical lines. *)
+Theorem C05_fixed_and_free_renderings_give_the_same_statement_partial :
+  forall ign (l5 : text) c6 lab line1 l1 nm p1 (ms : list (text * text)) bn pn marks src lc fifo tail,
+    (* fixed rendering *)
+    List.length l5 = 5 -> forallb space_or_digit l5 = true ->
+    stripped (l5 ++ c6 :: p1) -> starts_with ["#"%char] (lstrip (l5 ++ c6 :: p1)) = false ->
+    is_fix_comment (l5 ++ c6 :: p1) = false -> extract_construct_name p1 = (None, p1) ->
+    is_blank p1 = false -> List.length marks = S (List.length ms) ->
+    Forall fgood (map (fun mp => FCont (fixed_cont (fst mp) (snd mp))) (combine marks (map snd ms ++ [pn]))) ->
+    tail_ok tail ->
+    (* free rendering *)
+    stripped line1 -> line1 <> [] -> starts_with ["#"%char] (lstrip line1) = false ->
+    extract_label line1 = (lab, l1) -> extract_construct_name l1 = (nm, p1 ++ [amp]) ->
+    plain p1 -> mids_ok ms -> blanks bn -> plain pn -> pn <> [] -> negb (is_blank pn) = true ->
+    stripped (last_line bn pn) -> strip (p1 ++ List.concat (map snd ms) ++ pn) <> [] ->
+    exists a b a' b' s s' labf,
+      get_source_item (fx ign ((l5 ++ c6 :: p1) :: map fphys (map (fun mp => FCont (fixed_cont (fst mp) (snd mp)))
+                                                              (combine marks (map snd ms ++ [pn]))) ++ tail) [] lc fifo)
+      = (Some (RLine (strip (p1 ++ List.concat (map snd ms) ++ pn)) labf None a b), s) /\
+      get_source_item (ReaderJoin.st ign (line1 :: mids ms ++ last_line bn pn :: src) lc fifo)
+      = (Some (RLine (strip (p1 ++ List.concat (map snd ms) ++ pn)) lab nm a' b'), s') /\
+      a = a' /\ b' = a' + S (List.length ms).
+Proof. exact fixed_free_same_statement. Qed.
+Goal True. idtac "ASSUMPTIONS-OF C05_fixed_and_free_renderings_give_the_same_statement_partial". Abort.
+Print Assumptions C05_fixed_and_free_renderings_give_the_same_statement_partial.
+
+(* the hypotheses are satisfiable (a labelled statement over three lines with a comment in between) *)
+Example C05_example_fixed_item :
+  let ls := [FCont (s2t "     1 + b"); FCom (s2t "C note"); FCont (s2t "     & * c")] in
+  Forall fgood ls /\ tail_ok [s2t "      y = 2"] /\
+  get_source_item (fx false (s2t "   10 x = a" :: map fphys ls ++ [s2t "      y = 2"]) [] 0 [])
+  = (Some (RLine (s2t "x = a + b * c") (Some 10%N) None 1 4),
+     fx false [] [s2t "      y = 2"] 4 [RComment (s2t "C note") 3 3 false]).
+Proof. cbv zeta. split; [|split]; try (vm_compute; reflexivity). repeat constructor; vm_compute; reflexivity.
+       repeat split; vm_compute; reflexivity. Qed.
+Goal True. idtac "ASSUMPTIONS-OF C05_example_fixed_item". Abort.
+Print Assumptions C05_example_fixed_item.
